@@ -26,8 +26,10 @@ def main():
             print(f"VIOLATION property={what} replay={path}")
             return 1
         if status == "no-input":
-            print(f"VIOLATION property={what} replay={path} no-failing-input-found")
-            return 1
+            # the file names an obligation the verifier refuted when it was written; replaying it alone
+            # yields no failing input on this tree, which does not decide anything: re-run the check
+            print(f"replay of {path}: no failing input on this tree (inconclusive; run ./check {what} to re-decide the obligation)")
+            return 2
         return 0 if status == "holds" else 3
     if what == "selftest":
         from symx import selftest
